@@ -14,11 +14,14 @@ import (
 // fault. For every inbox scenario of the corpus (application callbacks wrapped around the default
 // effect): delivery 1 runs with every choice of <= bound failing seam calls, then the same activity
 // is delivered again once or twice fault-free on the same application. Over the whole history the
-// activity must be in the inbox at most once, its side effects must be resolved at most once, no
+// activity must be in the inbox at most once, no redelivery may need a lock the first delivery leaked, its side effects must be resolved at most once, no
 // collection may hold its id twice and it must be forwarded at most once.
 func redeliveryPart(res *Result, bound int) {
 	var scs []*Scenario
-	for _, sc := range Corpus() {
+	for _, sc := range append(Corpus(), AddressingCorpus()...) {
+		if strings.HasPrefix(sc.Name, "addr/") && (!strings.HasPrefix(sc.Name, "addr/forward-") || strings.Contains(sc.Name, "-filter=")) {
+			continue // of the addressing family only the forwarding scenarios (activities naming one value twice are not redelivery's business)
+		}
 		if sc.Entry == "PostInbox" && sc.Body != nil && sc.Body["id"] != nil {
 			scs = append(scs, sc)
 		}
@@ -49,6 +52,15 @@ func redeliveryPart(res *Result, bound int) {
 					return true
 				}
 				a.Faults = false
+				// a lock the first delivery still holds when it returns is never released: a later request that
+				// asks for it does not complete (the model counts locks instead of blocking, so say it here)
+				leaked := map[string]string{}
+				for lid, c := range out.Req.Held {
+					if c > 0 {
+						leaked[lid] = out.Req.Site[lid]
+					}
+				}
+				firstReq, logAt := out.Req.ID, len(a.Log)
 				for k := 0; k < redeliveries; k++ {
 					o2 := sc.On(a, nil)
 					if o2.Panic != nil {
@@ -57,6 +69,12 @@ func redeliveryPart(res *Result, bound int) {
 				}
 				f := faultOps(x)
 				var bad []string
+				for _, cl := range a.Log[logAt:] {
+					if site, ok := leaked[cl.Arg]; ok && cl.Op == "DB.Lock" && cl.Req != firstReq {
+						bad = append(bad, fmt.Sprintf("no-return-after-leaked-lock@%s|the first delivery returned still holding the lock of %s (taken in %s); the redelivery asks for that lock and never completes", NormSite(site), collClass(cl.Arg), NormSite(site)))
+						break
+					}
+				}
 				for box, items := range a.Inboxes {
 					c := 0
 					for _, it := range items {
